@@ -3,6 +3,7 @@ import Model.Pipe
 import Proofs.C17Pipe
 import Proofs.C17Deb
 import Proofs.C17Reg
+import Proofs.C06Lock
 /-!
 # C17 — pools stay within bounds; a session always closes (property theorems)
 
@@ -658,5 +659,50 @@ theorem C17_split_lock_orphans_pool :
     have h := C17Reg.orphan0_run bs _ s'
       ⟨by decide, by decide, by decide, by decide, by decide, by decide, by decide, by decide, by decide⟩ hr
     exact ⟨⟨h.open0, h.crit.2.2.2, h.notDoomed⟩, h.notReg⟩
+
+/-! ## Pool close when the transports' Close() reports an error (`Model/PoolLock.lean`, lemmas `Proofs/C06Lock.lean`)
+
+The fault point "net.Conn.Close() returns an error" (a tls.Conn whose close_notify cannot be written): Conn.Close then
+calls hostConnPool.HandleError on the closing goroutine, which takes pool.mu. The pool scenarios, the Session.Close runs
+and the connect-pipeline schedules of the C17 harness run with this fault on all / on the odd connections (`cerr`). -/
+
+/-- **pool close returns whatever the transports report from Close**: any goroutines running any sequences of the pool's
+    methods (Close, HandleError, Pick / Size, Conn.Close, closeWithError, the tail of connect()), any set of connections
+    whose transport reports an error from Close, any schedule: nobody waits for pool.mu while holding it, the holder of
+    pool.mu can always move, and while somebody has work left somebody can move (so hostConnPool.Close, hence
+    policyConnPool.Close and Session.Close, is never blocked for good on the pool's lock) -/
+theorem C17_pool_close_returns_with_close_errors (cerr : Nat → Bool) (conns : List Nat) (ms : Nat → List PoolLock.Meth)
+    (ts : List Nat) (st : PoolLock.St)
+    (hr : PoolLock.run cerr (PoolLock.init conns (fun t => PoolLock.progOf (ms t))) ts = some st) :
+    (∀ t, PoolLock.selfDeadlocked st t = false) ∧
+    (∀ t, st.holder = some t → (PoolLock.step cerr st t).isSome = true) ∧
+    (∀ u, st.prog u ≠ [] → ∃ t, (PoolLock.step cerr st t).isSome = true) := by
+  have inv : PoolLock.LInv cerr st :=
+    PoolLock.linv_run cerr ts _ st (PoolLock.linv_init cerr conns _ (fun t => PoolLock.ok_progOf cerr (ms t))) hr
+  refine ⟨?_, fun t hh => PoolLock.holder_steps cerr st t inv hh, fun u hu => PoolLock.some_thread_steps cerr st u inv hu⟩
+  intro t
+  have it := inv t
+  unfold PoolLock.selfDeadlocked
+  split
+  · rename_i r hpr
+    cases hh : decide (st.holder = some t) with
+    | true => simp [hpr, hh, PoolLock.ok] at it
+    | false => simpa using hh
+  · rfl
+
+/-- non-vacuity: Session.Close's pool close of two connections with faulty transports next to an error callback of
+    connection 2 (a reset seen by its receive loop) and a Pick: everybody finishes, each transport closed once -/
+example : ∃ st, PoolLock.run (fun _ => true)
+    (PoolLock.init [1, 2] (fun t => PoolLock.progOf (if t = 0 then [.close] else if t = 1 then [.connError 2, .pick] else [])))
+    [1, 0, 0, 0, 1, 1, 1, 0, 0, 0, 0, 0, 1, 1, 1, 0] = some st ∧
+    st.holder = none ∧ st.closed = true ∧ st.conns = [] ∧ st.closes 1 = 1 ∧ st.closes 2 = 1 ∧ st.prog 0 = [] ∧ st.prog 1 = [] := by
+  refine ⟨_, rfl, ?_, ?_, ?_, ?_, ?_, ?_, ?_⟩ <;> decide
+
+/-- what the fault class is there to catch (hostConnPool.Close closing its connections while it holds pool.mu — NOT the
+    code that exists): one pooled connection with a faulty transport and Close waits for its own lock for good -/
+theorem C17_pool_close_holding_lock_self_deadlocks :
+    ∃ st, PoolLock.run (fun _ => true) (PoolLock.init [1] (fun t => if t = 0 then PoolLock.pCloseHoldingLock else []))
+        [0, 0, 0, 0] = some st ∧ PoolLock.selfDeadlocked st 0 = true ∧ PoolLock.step (fun _ => true) st 0 = none := by
+  refine ⟨_, rfl, ?_, ?_⟩ <;> decide
 
 end C17
